@@ -1,6 +1,6 @@
 (* SrcSupport.v — the few definitions the regenerated files coq/gen/Gen{Stamp,Rel,Alloc,Ops,Trav}.v need
    beyond the model's own vocabulary.  MODEL ONLY (no proofs). *)
-From IT Require Export NodeOps.
+From IT Require Export Printer NodeOps.
 From Coq Require Import String.
 Open Scope mon_scope.
 
@@ -18,3 +18,26 @@ Fixpoint mfor {A} (l : list A) (f : A -> M unit) : M unit :=
 Definition usub (dbg : bool) (x y : Z) : M Z :=
   if Z.leb y x then ret (x - y)%Z
   else if dbg then panic P_OVERFLOW else ret (x - y + 18446744073709551616)%Z.
+
+(* ---- the pretty printer's IndentWriter as rs2coq sees it: the sink is the byte list written so far (it never
+   fails), `indents` is the Vec in ITS OWN order (the model keeps it reversed, as a stack) ---- *)
+Record gwriter := mkGW { g_out : list N; g_lst : lstate; g_ind : list istate; g_pend : nat }.
+Definition set_g_out (v : list N) (w : gwriter) : gwriter := mkGW v (g_lst w) (g_ind w) (g_pend w).
+Definition set_g_lst (v : lstate) (w : gwriter) : gwriter := mkGW (g_out w) v (g_ind w) (g_pend w).
+Definition set_g_ind (v : list istate) (w : gwriter) : gwriter := mkGW (g_out w) (g_lst w) v (g_pend w).
+Definition set_g_pend (v : nat) (w : gwriter) : gwriter := mkGW (g_out w) (g_lst w) (g_ind w) v.
+
+(* Vec::last / last_mut *)
+Definition last_opt {A} (l : list A) : option A := match rev l with x :: _ => Some x | [] => None end.
+Definition upd_last {A} (f : A -> A) (l : list A) : list A :=
+  match rev l with x :: t => (rev t ++ [f x])%list | [] => [] end.
+(* iter().rev().take_while(p).count() *)
+Fixpoint count_while {A} (p : A -> bool) (l : list A) : nat :=
+  match l with x :: t => if p x then S (count_while p t) else O | [] => O end.
+Definition count_trailing {A} (p : A -> bool) (l : list A) : nat := count_while p (rev l).
+(* str::find('\n') as a byte offset *)
+Fixpoint find_nl (s : list N) : option nat :=
+  match s with
+  | [] => None
+  | c :: t => if N.eqb c 10 then Some O else option_map S (find_nl t)
+  end.
